@@ -38,6 +38,7 @@ func cmdRun(args []string) {
 	maxProg := fs.Bool("maxprog", false, "maximal progress timers")
 	frozen := fs.Bool("frozen", false, "frozen clock")
 	cclock := fs.Bool("cclock", false, "concrete clock")
+	alt := fs.Bool("alt", false, "mirror into cvc5 and consult it on unknown")
 	trace := fs.String("trace", "", "replay the first violation whose message contains this text with call tracing")
 	smtlog := fs.String("smtlog", "", "log solver input of worker 0 to file")
 	fs.Parse(args)
@@ -58,7 +59,7 @@ func cmdRun(args []string) {
 	}
 	fmt.Printf("loaded in %.1fs\n", e.loadS)
 	for _, hn := range rest[1:] {
-		h := &harnessSpec{name: hn, pkg: pkg, preemptionBound: *pb, maximalProgress: *maxProg, maxTicks: 3, frozenClock: *frozen, concreteClock: *cclock}
+		h := &harnessSpec{name: hn, pkg: pkg, preemptionBound: *pb, maximalProgress: *maxProg, maxTicks: 3, frozenClock: *frozen, concreteClock: *cclock, altSolver: *alt, solver: opts.solverBin}
 		res := e.explore(h)
 		fmt.Printf("== %s: paths=%d maxdepth=%d wall=%.2fs violations=%d inconclusive=%d\n", hn, res.paths, res.maxDepth, res.wall, len(res.violations), len(res.inconcl))
 		for _, m := range res.inconcl {
